@@ -171,6 +171,13 @@ def near_request(draw, prev, fams):
                     dtype=draw(st.sampled_from([prev["dtype"], new["dtype"]])),
                     kind=draw(st.sampled_from([prev["kind"], new["kind"]])))
     keys = sorted(k for k in prev if k in new and new[k] != prev[k] and k not in ("seed", "newgrid", "reuse"))
+    if "grid" in prev and draw(st.integers(0, 3)) == 0:
+        # the same request on a twin grid (same class, shape, periodicity; other bounds)
+        g0 = GRIDS[prev["grid"]]
+        twins = [i for i, g in enumerate(GRIDS) if i != prev["grid"] and g["shape"] == g0["shape"]
+                 and g["cls"] == g0["cls"] and g["periodic"] == g0["periodic"]]
+        if twins:
+            return dict(prev, grid=draw(st.sampled_from(twins)))
     if not keys:
         return new
     k = draw(st.sampled_from(keys))
